@@ -593,7 +593,7 @@ fn bodies(seed: u64, target: &str, vi: u64, len: usize, tier: Tier) -> Vec<Body>
 }
 
 pub fn values_per_target(tier: Tier) -> u64 {
-    values_per_doc(tier, 3, 24)
+    values_per_doc(tier, 16, 300)
 }
 pub fn n_units(tier: Tier) -> u64 {
     n_targets() * values_per_target(tier)
